@@ -1510,7 +1510,14 @@ func (r *multiCIDRRangeAllocator) nodeSelectorKey(clusterCIDR *v1.ClusterCIDR) (
 		return "", err
 	}
 
-	return nodeSelector.String(), nil
+	// The key is parsed back whenever a node is matched against the map (matchCIDRLabels): a selector whose
+	// printed form does not parse must be rejected here, or every later allocation fails on it.
+	key := nodeSelector.String()
+	if _, err := labels.Parse(key); err != nil {
+		return "", fmt.Errorf("nodeSelector %q cannot be used as a label selector: %w", key, err)
+	}
+
+	return key, nil
 }
 
 func listClusterCIDRs(ctx context.Context, networkClient clustercidrclient.ClusterCIDRInterface) (*v1.ClusterCIDRList, error) {
